@@ -192,3 +192,20 @@ S("C17", "close() does not close the transport", "R6", (MC, "            transpo
 S("C17", "no wait on the live connection", "R5", (MC, "                await wait(\n                    (done_task, closing_task2),\n                    return_when=FIRST_COMPLETED,\n                )\n", ""))
 N("C17", "inline cancellation instead of the helper", (MC, "            await self._cancel_tasks(connect_task, closing_task)\n", "            for task in (connect_task, closing_task):\n                if not task.done():\n                    task.cancel()\n            await wait((connect_task, closing_task))\n"))
 N("C17", "closing test written positively", (MC, "        if not self._is_closing.is_set():\n            try:\n                _LOGGER.debug(\"Try to connect\")", "        if self._is_closing.is_set():\n            return\n        if not self._is_closing.is_set():\n            try:\n                _LOGGER.debug(\"Try to connect\")"))
+
+# ------------------------------------------------------------------------------------------------ C13
+S("C13", "is_valid guard removed", "R1", (MC, "        if message.is_valid:\n            if payload is not None and len(payload) > 0:\n                self.queue.put_nowait(payload)", "        if True:\n            if payload is not None and len(payload) > 0:\n                self.queue.put_nowait(payload)"))
+S("C13", "len(payload) > 0 -> >= 0", "R1", (MC, "if payload is not None and len(payload) > 0:", "if payload is not None and len(payload) >= 0:"))
+S("C13", "payload enqueued is as_bytes", "R1", (MC, "                self.queue.put_nowait(payload)", "                self.queue.put_nowait(message.as_bytes)"))
+S("C13", "message protocol filters invalid messages", "R2", (MC, '        """Received message is passed on to the queue."""\n        self.queue.put_nowait(message)', '        """Received message is passed on to the queue."""\n        if message.is_valid:\n            self.queue.put_nowait(message)'))
+S("C13", "break after selection removed", "R4", (MC, "                    for msg in messages:\n                        self.message_received(msg)\n                    break\n", "                    for msg in messages:\n                        self.message_received(msg)\n"))
+S("C13", "selection on any message", "R3", (MC, "                    if msg.is_valid:\n                        self._selected_reader = reader", "                    if msg is not None:\n                        self._selected_reader = reader"))
+S("C13", "forward loop starts at the valid message", "R4", (MC, "                    if msg.is_valid:\n                        self._selected_reader = reader\n                        self._reader_candidates.clear()\n                        _LOGGER.info(\"Reader %s selected.\", reader)\n                        break\n                if self._selected_reader:\n                    for msg in messages:\n                        self.message_received(msg)\n                    break",
+    "                    if msg.is_valid:\n                        self._selected_reader = reader\n                    if self._selected_reader:\n                        self.message_received(msg)\n                if self._selected_reader:\n                    self._reader_candidates.clear()\n                    break"))
+S("C13", "candidate loop left after the first reader with messages", "R4", (MC, "                if self._selected_reader:\n                    for msg in messages:\n                        self.message_received(msg)\n                    break\n", "                if self._selected_reader:\n                    for msg in messages:\n                        self.message_received(msg)\n                if messages:\n                    break\n"))
+S("C13", "selected branch forwards only valid messages", "R4", (MC, "            messages = self._selected_reader.read(data)\n            for msg in messages:\n                self.message_received(msg)", "            messages = self._selected_reader.read(data)\n            for msg in messages:\n                if msg.is_valid:\n                    self.message_received(msg)"))
+S("C13", "selects the first candidate instead of the producing one", "R3", (MC, "                        self._selected_reader = reader\n", "                        self._selected_reader = self._reader_candidates[0]\n"))
+N("C13", "selection through any()", (MC, "                for msg in messages:\n                    if msg.is_valid:\n                        self._selected_reader = reader\n                        self._reader_candidates.clear()\n                        _LOGGER.info(\"Reader %s selected.\", reader)\n                        break\n",
+                                       "                if any(msg.is_valid for msg in messages):\n                    self._selected_reader = reader\n                    self._reader_candidates.clear()\n"))
+N("C13", "presence test written with is not None", (MC, "        if self._selected_reader:\n            messages = self._selected_reader.read(data)", "        if self._selected_reader is not None:\n            messages = self._selected_reader.read(data)"))
+N("C13", "payload truthiness test", (MC, "if payload is not None and len(payload) > 0:", "if payload:"))
